@@ -40,5 +40,18 @@ ExitCodeMatchesOutcome ==
     (NonInteractive /\ ~mode.verbose) =>
         LET b == Behaviour(mode, script) IN (b.code = 0 <=> (Admissible(script, RealLimits.elem) /\ Iter(S0).vm.status # "failed"))
 InteractiveAgrees == Continue(S0).vm = Iter(S0).vm
+\* --dataset: over every combination of (explicit --tx?, explicit --txin?, tx file there?, in file there?, how the files end) the expansion
+\* is refused exactly when a needed file is missing, an explicit option always wins, and a file's text is taken without its line end
+DsOpens == {[dataset |-> "d", txopt |-> t, txinopt |-> i, dsfiles |-> [tx |-> [present |-> pt, text |-> IF pt THEN "aa" \o e1 ELSE ""],
+                                                                      in |-> [present |-> pi, text |-> IF pi THEN "bb" \o e2 ELSE ""]]] :
+              t \in {"", "cc"}, i \in {"", "dd"}, pt \in BOOLEAN, pi \in BOOLEAN, e1 \in {"", "\n", "\r\n", "\n\n"}, e2 \in {"", "\n"}}
+DatasetExpansion ==
+    \A o \in DsOpens : LET x == DatasetExpand(o) IN
+        /\ ("dsrefused" \in DOMAIN x) <=> ((o.txopt = "" /\ ~o.dsfiles.tx.present) \/ (o.txinopt = "" /\ ~o.dsfiles["in"].present))
+        /\ ("dsrefused" \notin DOMAIN x) => /\ x.tx = (IF o.txopt # "" THEN "cc" ELSE "aa")
+                                            /\ x.txin = (IF o.txinopt # "" THEN "dd" ELSE "bb")
+        /\ DatasetExpand([a |-> 1]) = [a |-> 1]
+ASSUME DatasetExpansion
+ASSUME DatasetPath("p2pkh", "tx") = "doc/txs/p2pkh-tx" /\ DatasetPath("p2pkh", "in") = "doc/txs/p2pkh-in"
 VerboseRefused == (NonInteractive /\ mode.verbose) => Behaviour(mode, script).code = 1
 =============================================================================
